@@ -289,7 +289,16 @@ def _judge_table(R, text, engine, sw, d, exp_in, call, rowcls, reader=False, v=N
 
 
 def _fld(fl, R, rng, budget, seed=0, sizes=None, **kw):
-    """FldExporter against the statement of C18 (see module docstring; the reference outputs come from Engine.process on floats)."""
+    """FldExporter against the statement of C18.  Header = names of the selected (switches input_values / output_values) variables
+    joined by the separator, absent when headers=False; EachVariable = v: v values per input; AllVariables = v: k values per input, k the
+    largest integer with k**n <= v, n = ALL input variables of the engine (ScopeOfValues docstring: "I refers to the input variables");
+    rows in lexicographic order, last input fastest; each row = inputs as held by the input variables + the outputs of a restarted deep
+    copy of the engine processed row by row with plain floats (the reference; Engine.process on floats is not the subject), printed with
+    settings.decimals decimals (text compared; a token that differs must still be a correct rounding within 1e-12 of the reference).
+    Reader export: the first `skip_lines` raw lines are skipped, then blank lines and lines starting with `#`; inputs = first n columns.
+    kw `sizes=[...]` restricts the requested sizes v.  Classes: fld-rowcount:n=<n>, fld-order, fld-coordinates, fld-outputs, fld-header,
+    fld-format, fld-reader[:empty], fld-active, crash:<Type>@<function>; skipped fld-rowcount cases are listed in `skipped_detail` as
+    [n, v, observed rows, expected rows]."""
     import io
     S = fl.FldExporter.ScopeOfValues
     fl.settings.decimals = 6
@@ -344,7 +353,7 @@ def _fld(fl, R, rng, budget, seed=0, sizes=None, **kw):
         if text is not _CRASHED:
             _judge_table(R, text, e, (" ", False, True, False), 6, exp, call, f"fld-rowcount:n={n}", v=v)
     # (2b) documented `active_variables`: the grid runs over the active inputs only (k still from ALL inputs), the others keep their value
-    for n, act, v in ((2, (1,), 50), (3, (0, 2), 30), (3, (1,), 1000), (4, (3, 0), 700)):
+    for n, act, v in ((2, (1,), 50), (3, (0, 2), 30), (3, (1,), 999), (4, (3, 0), 700)):
         R.cases += 1; R.distinct += 1
         e = _const_engine(fl, n)
         held = [0.25 * (i + 1) + _IN_RANGES[i][0] for i in range(n)]
@@ -368,7 +377,7 @@ def _fld(fl, R, rng, budget, seed=0, sizes=None, **kw):
             engines.append((f"e = fl.FllImporter().from_string(fld_fll({n}, {kind!r}, {lock}))", fl.FllImporter().from_string(fll)))
     for rel in _SHIPPED_FLD:
         engines.append((_example_src(rel), _example(fl, rel)))
-    n_exports = max(4, budget // 4)
+    n_exports = max(4, budget * 3 // 4)
     for j in range(n_exports):
         src, e = engines[j % len(engines)] if j < 2 * len(engines) else rng.choice(engines)
         n = len(e.input_variables)
@@ -417,6 +426,11 @@ def _fld(fl, R, rng, budget, seed=0, sizes=None, **kw):
                 lines.append(rng.choice([" ", " ", "  "]).join(tk) + rng.choice(["", "", " "]))
             while rng.random() < 0.3:
                 lines.append(rng.choice(["", "# trailing comment"]))
+            probe = copy.deepcopy(e)   # the input values as the input variables hold them (a lock-range input clips, Variable.value)
+            for row in exp:
+                for iv, x in zip(probe.input_variables, row):
+                    iv.value = x
+                row[:] = [_f(iv.value) for iv in probe.input_variables]
             content = "\n".join(lines) + rng.choice(["\n", ""])
             call = f"{src}; {cfg}x.to_string_from_reader(e, io.StringIO({content!r}), skip_lines={skip})"
             text = R.lib("FldExporter.to_string_from_reader" + (":empty" if not exp else ""), call, exporter.to_string_from_reader, e, io.StringIO(content), skip)
@@ -548,7 +562,12 @@ def _sample_mu(fl, R, agg, acts, lo, hi, r, call):
 
 def _integral(fl, R, rng, budget, seed=0, **kw):
     """The five integral defuzzifiers against the definitions of C09 computed in plain Python from scalar membership calls
-    (Term.membership / Norm.compute on floats and Aggregated.membership on one float are building blocks, not the subject)."""
+    (Term.membership / Norm.compute on floats and Aggregated.membership on one float are building blocks, not the subject).
+    An Activated term without implication and a non-empty Aggregated without aggregation raise ValueError by documentation, so every
+    set here has both.  Tolerance 1e-9 * (max - min) + 1e-12 * max(|min|, |max|); ties that only differ by rounding (1e-12) accept any
+    value between the tied points.  Classes: integral-value:<D>, integral-range, integral-order, integral-nan, integral-translation,
+    integral-membership, integral-batch-shape:<D>:r=1 | r>1, integral-batch-shape-N1:<D> (N = 1: 0-d instead of shape (1,)),
+    integral-batch-value."""
     import numpy as np
     widths = [(0.0, 1.0), (-1.0, 1.0), (-5.0, -2.0), (0.0, 1e-9), (1.0, 1.000001), (-1e6, 1e6), (0.0, 1e100), (-3e50, 1e50), (10.0, 30.0)]
     for case in range(2 * budget):
@@ -737,7 +756,13 @@ def _cmp(a, b):
 
 def _batch(fl, R, rng, budget, seed=0, engines=None, **kw):
     """Modes B (per-variable arrays) and C (Engine.input_values = matrix) against mode A (row by row, plain floats) from the same
-    starting state (a deep copy of one restarted - and optionally warmed-up - engine).  Mode A is the reference of the statement."""
+    starting state (a deep copy of one restarted - and optionally warmed-up - engine).  Mode A is the reference of the statement.
+    Engines: every shipped example of the mamdani / takagi_sugeno / tsukamoto / hybrid folders + generated engines `gen_fll(seed, i)`
+    (kw `engines=[...]`: only these shipped names / generated indices).  Batches of 1, 2, 3, 7 rows with NaN, +-inf and out-of-range
+    values, optionally followed by a second batch that continues from the state left by the first.  Values and per-row activation degrees
+    must be == (or both NaN); within 1e-12 relative -> class batch-rounding.  Classes: batch-values:<defuzzifier|output_values>,
+    batch-fuzzy, batch-rounding, batch-shape:<defuzzifier>:<r=1|no-activations|scalar-degrees|other>, batch-shape:output_values,
+    batch-raises-only-in:<A|B|C>:<ExceptionType>."""
     import glob
     import numpy as np
     pool = []
